@@ -276,3 +276,20 @@ def run_c11(ctx: Ctx):
 
 REGISTRY["C11"] = run_c11
 del REGISTRY["C11_old"]
+
+
+def run_c07(ctx: Ctx):
+    import smstr
+    ctx.level = "proof"
+    ctx.trusted_base = MARKER_PROOF_TRUST + ["Model/MarkerStr.v is a hand-written model of __str__ of every marker class (as a list of lexemes) and of the PEP 508 marker grammar as packaging parses it; tied by the S-mstr stream "
+                                             "(lexed str(m) of reachable markers vs the model's rendering; the model's parse vs packaging's Marker(text)._markers, incl. malformed texts)",
+                                             "lexing (quotes, whitespace, operator spelling) is packaging's tokeniser: observed by the harness lexer, not modelled",
+                                             "the theorems are stated for renderable markers (rnd): non-empty compounds / groups without <empty> or universal children - what C15 claims of every result (known finding: one-child compounds are renderable)"] + MARKER_TRUST
+    props_spec.proof_step(ctx, "Props/C07.v", ["C07_parses", "C07_meaning", "C07_reparse", "C07_specials"], extra_targets=["Model/MarkerStr.v", "Model/CorrMarker.v"])
+    ctx.coverage["explanation"] = "theorems C07_parses / C07_meaning / C07_reparse / C07_specials over Model/MarkerStr.v + Model/Marker.v; S-mstr and S-mark tie the models to the code; the direct oracle re-parses str(m) with parse_marker and packaging and compares truth tables"
+    smstr.stream_smstr(ctx, 150 if ctx.tier == "quick" else 2500)
+    pm.oracle_c07(ctx, _n(ctx, 300, 5000))
+    ctx.coverage["rule"] = GEN_RULE
+
+
+REGISTRY["C07"] = run_c07
